@@ -301,8 +301,8 @@ HARNESSES = [
             code=['FileStorage.pack', 'fspack.GC.findReachable/findReachableAtPacktime/findReachableFromFuture/findrefs',
                   'FileStoragePacker.pack/copyToPacktime/copyDataRecords/copyRest/copyOne', 'PackCopier', 'serialize.referencesf',
                   '_redundant_pack'],
-            quick=dict(timeout=170, shards=shards(gc=[True, False], variant=['G1'], reopen=[True]) + shards(gc=[True], variant=['G2', 'G3', 'G4', 'G5'], reopen=[False])),
-            thorough=dict(timeout=900, shards=shards(gc=[True, False], variant=['G1', 'G0', 'G2', 'G3', 'G4', 'G5'], reopen=[True, False]))),
+            quick=dict(timeout=170, shards=shards(gc=[True, False], variant=['G1'], reopen=[True]) + shards(gc=[True], variant=['G2', 'G3', 'G4', 'G5', 'G6'], reopen=[False])),
+            thorough=dict(timeout=900, shards=shards(gc=[True, False], variant=['G1', 'G0', 'G2', 'G3', 'G4', 'G5', 'G6'], reopen=[True, False]))),
     Harness('blob_undo_pack', _blob_undo_pack,
             decides='FileStorage with a blob directory: write/commit/undo chains (incl. one undo transaction undoing the two newest '
                     'transactions of a blob: two records that share one file) followed by a pack to now or to an earlier time - every '
